@@ -11,6 +11,25 @@ for op, label in (("_union", "gamma_union"), ("_intersection", "gamma_inter")):
     requires(c, "wf_a", lambda a: wf_fee(a))
     requires(c, "wf_b", lambda b: wf_fee(b))
     ensures(c, "wf", lambda result: wf_fee(result))
+
+    def _fee_samples():
+        from tealer.analyses.dataflow.transaction_context.fee_field import FeeField, FeeValue
+        me = FeeField.__new__(FeeField)
+        vals = [FeeValue(is_unknown=True), FeeValue(value=0)] + [FeeValue(value=x) for x in (1000, 271999, 272000, 272001, 2 ** 64 - 1)]
+        for x in vals:
+            for y in vals:
+                yield {"self": me, "key": "Fee", "a": x, "b": y}
+    c.samples = _fee_samples
+
+    def mk_comm(op):
+        from pyvc.dsl import SymCall, EqAlts
+        def same_bound(x, y):
+            """equal as exported by _store_results: both unknown, or both known with the same value"""
+            return Or(And(x.is_unknown, y.is_unknown), And(Not(x.is_unknown), Not(y.is_unknown), x.value == y.value))
+        return lambda self, key, a, b, result: EqAlts(result, SymCall(F + op, self, key, b, a), same_bound)
+    ensures(c, "commutes", mk_comm(op), tags=["C14", "C09"],
+            note="the merge order (set iteration order of callers / subroutines) must not show in the result: a op b == b op a "
+                 "as values, not only in gamma")
     if op == "_union":
         ensures(c, label, lambda a, b, result: forall(T.Int, lambda x:
                 Iff(in_gamma_fee(result, x), Or(in_gamma_fee(a, x), in_gamma_fee(b, x)))))
